@@ -75,6 +75,27 @@ CHECKS_K1 = {
                 "the library-private NotSet sentinel of with_latest_from. reactivex.amb (n-ary fold of amb_) is not separately contracted.",
         "technique": "K1 handler refinement per source index at arity 2 and 3, SMT",
     },
+    "C08": {
+        "text": "Opacity contract on the AST of every module of reactivex/operators, reactivex/observable and reactivex/subject: element "
+                "values (the element parameter of every on_next handler - functions and lambdas handed as on_next to .subscribe(...) or "
+                "an observer constructor, and the value parameter of on_next/_on_next_core methods - and everything they flow into by "
+                "assignment, nonlocal cells, containers (append / item store / self.<field>) and back out (pop, index, iteration, field "
+                "read, conditional expressions)) never reach a truthiness or None test: for every condition of if/while/ternary/assert/"
+                "comprehension filter, every operand of not/and/or, every bool(...) argument and every comparison with None in a "
+                "function that handles elements, the expression is not element-valued (about 310 sites). Where an operator or subject "
+                "has a K1/K2 contract (C05, C06, C11-C13, C20-C23) the same is proved path-sensitively: the elements there are terms of "
+                "an uninterpreted value sort whose truthiness and equality with None the solver chooses freely, so a dropped or "
+                "mistaken falsy element is a counter-model of the refinement obligations.",
+        "note": "Trusted: the taint rules (flow-insensitive, name-based, per module; A-static). The result of calling anything (key "
+                "mapper, predicate, len, Timestamp(...)) is not an element, so a user key that is falsy is out of scope here (keys are "
+                "compared, not tested, in the contracted operators). Elements that travel through structures the rules do not follow "
+                "(dict values, attributes of other objects, Notification records, scheduler state) are only covered where a K1/K2 "
+                "contract exists: the delay/replay family (Timestamp / notification queues) is covered by the bounded native "
+                "cross-check only. Refuted obligations are replayed by falsyrun.py: ~65 pipelines and subjects run on sequences over "
+                "{None, 0, '', (), [], {}} and on distinct truthy tokens in their place; the outputs must agree up to the renaming - "
+                "bounded (lengths <= 4), replay and thorough-tier cross-check only.",
+        "technique": "opacity (no-observation) contract decided by taint analysis on the AST; K1/K2 refinement over an uninterpreted value sort for the contracted units",
+    },
     "C09": {
         "text": "Guard contracts on the AST of every module of reactivex/operators and reactivex/observable (about 200 handler / action "
                 "entry points): a function of a module MAY LET A USER EXCEPTION ESCAPE iff, outside every `try` whose handlers catch "
